@@ -1555,6 +1555,59 @@ func moveDuringBackoffScenario(split bool) string {
 	return fmt.Sprintf("c01w seq E:%s R:get:ok:%s:%s F:0", ev, res, attStr(mine))
 }
 
+// probeRefusedThenMoved (C04 / C09): a region is in transition: it is closed on its old server (a
+// request and then the availability probe are told NotServingRegion there while hbase:meta still
+// names that server), and while the re-establishment backs off it opens on another server. The
+// next attempt has to find it there; the waiting request is served and the region is available.
+func probeRefusedThenMoved() string {
+	setSleepOverride(fastBackoff)
+	c := newSimCluster()
+	r := c.addRegion(nil, []byte("t"), nil, nil, "rs1:1")
+	sc := newSimClient(c)
+	defer sc.cl.Close()
+	get := func(k string) string {
+		ctx, cancel := context.WithTimeout(context.Background(), 6*time.Second)
+		defer cancel()
+		g, _ := hrpc.NewGet(ctx, []byte("t"), []byte(k))
+		_, err := sc.cl.Get(g)
+		return classOf(err)
+	}
+	warm := get("warm")
+	c.mu.Lock()
+	r.faults = append(r.faults, "REQ:nsre")
+	r.probeAlways = "nsre"
+	c.mu.Unlock()
+	backoffHook.Store(func() {
+		// the first back-off after a probe was refused
+		c.mu.Lock()
+		defer c.mu.Unlock()
+		if r.probeAlways == "" {
+			return
+		}
+		for _, s := range c.serves {
+			if s.kind == "probe" && s.outcome == "nsre" {
+				r.addr = "rs2:1"
+				r.probeAlways = ""
+				return
+			}
+		}
+	})
+	res := get("k")
+	backoffHook.Store(func() {})
+	res2 := get("k2")
+	settle()
+	unavailable := 0
+	for _, ok := range sc.v.VerifAvailability() {
+		if !ok {
+			unavailable++
+		}
+	}
+	if warm != "ok" {
+		res = "setup-" + warm
+	}
+	return fmt.Sprintf("c04 script probe-refused-then-moved %s,%s unavailable=%d", res, res2, unavailable)
+}
+
 type zkFixed string
 
 func (z zkFixed) LocateResource(zk.ResourceName) (string, error) { return string(z), nil }
@@ -1646,6 +1699,9 @@ func init() {
 			if shard == 3%nsh {
 				emit(strings.Replace(probeAfterDeath(), "c09 script", "c04 script", 1))
 			}
+			if shard == 4%nsh {
+				emit(probeRefusedThenMoved())
+			}
 			for i := shard; i < 24; i += nsh {
 				emit(mergeRaceScenario())
 			}
@@ -1727,6 +1783,11 @@ func init() {
 			if shard == 1%nsh && !raceChild {
 				emit(metaColocatedScenario())
 			}
+			if shard == 2%nsh && !raceChild {
+				emit(strings.Replace(probeRefusedThenMoved(), "c04 script", "c09 script", 1))
+				emit(strings.Replace(probeFatalScenario(), "c04 script", "c09 script", 1))
+				emit(strings.Replace(metaSlowScenario(true), "c04 script", "c09 script", 1))
+			}
 			if !raceChild {
 				for i := shard; i < 24; i += nsh {
 					emit(strings.Replace(mergeRaceScenario(), "c04 script", "c09 script", 1))
@@ -1805,6 +1866,28 @@ func init() {
 			st := waitStates[3]
 			jobs = append(jobs, func() string { return closeScenarioAfter(&st, 2200*time.Millisecond) })
 		}
+		// Close of a real region client (what the client's Close does to every connection it holds)
+		// with requests queued, being written and awaiting answers: gated schedules in which Close is
+		// the only thing that goes wrong; every call ends, exactly once (monitors of C03)
+		nConn := 64
+		if tier != "quick" {
+			nConn = 1500
+		}
+		for i := 0; i < nConn; i++ {
+			i := i
+			jobs = append(jobs, func() string {
+				rng := NewRNG(seed, fmt.Sprintf("c19c-%d", i))
+				q := []int{1, 2, 3, 5, 100}[rng.Intn(5)]
+				s := newConnScn(rng, q)
+				if s.broken == "" {
+					s.run(6+rng.Intn(25), 1+rng.Intn(6), "close")
+				}
+				return s.line("c19c")
+			})
+		}
+		jobs = append(jobs,
+			func() string { return strings.Replace(slowCloseScenario(), "c03 script", "c19c script", 1) },
+			func() string { return strings.Replace(blockedWriteCloseScenario(), "c03 script", "c19c script", 1) })
 		runSharded("C19", tier, seed, out, 8, func(shard, nsh int, emit func(string)) {
 			for i := shard; i < len(jobs); i += nsh {
 				emit(jobs[i]())
